@@ -34,6 +34,7 @@ def cases(draw, tier="quick"):
     P["w_drop"] = draw(st.sampled_from([1, 2, 4]))
     P["input_refresh"] = draw(st.booleans())
     P["hs_fail"] = draw(st.sampled_from([[0, 0], [0, 0], [1, 0], [0, 2], [1, 1]]))
+    P["hs_slow"] = draw(st.sampled_from([[False, False], [False, False], [True, False], [True, True]]))
     n = draw(st.integers(10, 300))
     P["tape"] = draw(st.binary(min_size=n, max_size=n))
     return P
